@@ -91,10 +91,14 @@ def enum_decl(e, vis="pub ", docs=False, derive=True):
     for v in e["variants"]:
         if docs:
             lines.append("    /// variant %s" % v["name"])
+        for a in v.get("pre_attrs", []):
+            lines.append("    " + a)
         if v["cfg"] is True:
             lines.append("    #[cfg(all())]")
         elif v["cfg"] is False:
             lines.append("    #[cfg(any())]")
+        for a in v.get("post_attrs", []):
+            lines.append("    " + a)
         if v.get("discr_text") is not None:
             lines.append("    %s%s," % (v["name"], v["discr_text"]))
         else:
